@@ -14,6 +14,24 @@ def case_stream(tier, seed, salt, n_prog, n_list, bool_only=False):
     for src, args, ret in CORPUS_PROGS:
         for prof in ("default", "fast"):
             yield {"kind": "prog", "src": src, "args": args, "ret": ret, "profile": prof, "origin": "corpus", "feat": []}
+    # fixed corpus: identical for every VERIF_SEED, so that failures of a listed mechanism are keyed by INPUT there
+    frng = random.Random(424242 + salt)
+    fcfgs = [P.small_cfg(max_bits=5), P.small_cfg(max_bits=7, depth=3)]
+    if bool_only:
+        for c in fcfgs:
+            c.ret_kinds = ["bool"]
+    fpgs = [P.PG(frng, c) for c in fcfgs]
+    for i in range(220):
+        pr = fpgs[i % 2].program()
+        yield dict(pr, kind="prog", profile="default" if i % 3 else "fast", origin="fixed")
+    for i in range(320):
+        if frng.random() < 0.3:
+            c = G.pattern_lists(frng, 1)[0]
+        else:
+            c = G.rand_list(frng, n_in=frng.randint(2, 5), depth=frng.choice([2, 3, 3]), ops=["and", "or", "xor", "not"] + (["ite"] if frng.random() < 0.3 else []), n_ret=1 if bool_only else None)
+        if bool_only:
+            c["list"] = [x for x in c["list"] if not x[0].startswith("_ret")] + [["_ret", [x for x in c["list"] if x[0].startswith("_ret")][0][1]]]
+        yield dict(c, kind="list", profile="default" if i % 2 else "fast", evaluate=frng.random() < 0.8, origin="fixed")
     cfgs = [P.small_cfg(max_bits=6), P.small_cfg(max_bits=8, depth=3), P.Cfg(max_bits=9, depth=3, stmts=3, mul_max_w=3)]
     if bool_only:
         for c in cfgs:
